@@ -20,14 +20,17 @@ CANON = {
 }
 
 
-def conforms(node, table, d, tuple_notation=True):
-    """B.conforms extended with the canonical Python types of logical branches (top of a branch only)."""
-    n = deref(node, table)
+def _logical_hook(n, d):
     if "logical" in n and n["logical"]["type"] in CANON and isinstance(d, CANON[n["logical"]["type"]]):
         if n["logical"]["type"] == "decimal":
             return decimal_fits(n, d)
         return True
-    return B.conforms(node, table, d, tuple_notation)
+    return None
+
+
+def conforms(node, table, d, tuple_notation=True):
+    """B.conforms extended with the canonical Python types of logical nodes at any depth."""
+    return B.conforms(node, table, d, tuple_notation, hook=_logical_hook)
 
 
 def decimal_fits(n, d):
